@@ -23,7 +23,7 @@ META = {
                       "symbolic a,b,w; StrategyDict: histories of <=3 operations over names {a,b,c} and 3 symbolic strategy "
                       "identities",
              "thorough": "<=5 live keys (all shapes), key tuples of length <=3, StrategyDict histories of <=4 operations"},
-  "outside": "unhashable / NaN-like values, more live keys than the bound, constructor from a dict (same __setitem__)",
+  "outside": "unhashable / NaN-like values, more live keys than the bound, constructor with keyword arguments",
   "stubs": ["dict := SymDict when lazy_core.py is re-executed (association list, == decides key identity)"],
   "assumptions": ["representation invariant of the pre-state: keys pairwise distinct, values pairwise distinct, the three maps "
                   "consistent; every such state is reachable by assigning the groups key by key (used by the concrete replay)"],
@@ -40,9 +40,17 @@ def _symcore():
   path = os.path.join(repo, "audiolazy", "lazy_core.py")
   key = (path, os.path.getmtime(path))
   if key not in _NS:
-    src = open(path).read()
+    import ast
+    tree = ast.parse(open(path).read(), path)
+    class EmptyLiteral(ast.NodeTransformer):      # `{}` inside MultiKeyDict is the same thing as dict(): make it say so
+      def visit_Dict(self, node):
+        if node.keys: return self.generic_visit(node)
+        return ast.copy_location(ast.Call(func=ast.Name(id="dict", ctx=ast.Load()), args=[], keywords=[]), node)
+    for node in tree.body:
+      if isinstance(node, ast.ClassDef) and node.name == "MultiKeyDict": EmptyLiteral().visit(node)
+    ast.fix_missing_locations(tree)
     ns = {"__name__": "audiolazy.lazy_core_symdict", "__package__": "audiolazy", "dict": SymDict}
-    exec(compile(src, path, "exec"), ns)
+    exec(compile(tree, path, "exec"), ns)
     assert ns["MultiKeyDict"].__mro__[1] is SymDict
     _NS.clear(); _NS[key] = ns
   return _NS[key]
@@ -207,6 +215,65 @@ def h_history(ctx, cfg):
   _check_state(ctx, d, groups, "history")
 
 
+def h_cast(ctx, cfg):
+  """MultiKeyDict(mapping / pairs / another MultiKeyDict) starts as the map it was given and is a map of its own
+  afterwards: assignments and deletions on either object leave the other one alone."""
+  if ctx.mode == "concrete":
+    from audiolazy.lazy_core import MultiKeyDict as MKD
+  else:
+    MKD = _symcore()["MultiKeyDict"]
+  U = cfg["U"]
+  def step(d, groups, t, tag):
+    op = ctx.choice("op%s%d" % (tag, t), ["set1", "set2", "del"])
+    lo = 0 if U < 50 else -U
+    a = ctx.int("a%s%d" % (tag, t), lo, U) + BIG; b = ctx.int("b%s%d" % (tag, t), lo, U) + BIG
+    w = ctx.int("w%s%d" % (tag, t), lo, U) - BIG
+    if op == "set1":
+      d[a] = w; return model_set(groups, [a], w)
+    if op == "set2":
+      d[(a, b)] = w; return model_set(groups, [a, b], w)
+    exp = model_del(groups, a)
+    try:
+      del d[a]; ok = True
+    except KeyError:
+      ok = False
+    ctx.prove(ok == (exp is not None), "deleting-a-missing-key-raises-KeyError")
+    return groups if exp is None else exp
+  how = cfg["how"]
+  if how == "mkd":
+    # the source is an arbitrary valid dict of the given shape (as in h_step), then one arbitrary operation on each
+    shape = cfg["shape"]; nk = sum(shape)
+    keys = [ctx.int("k%d" % i, -50, 50) + BIG for i in range(nk)]
+    vals = [ctx.int("v%d" % i, -50, 50) - BIG for i in range(len(shape))]
+    for i in range(nk):
+      for j in range(i): ctx.assume(keys[i] != keys[j])
+    for i in range(len(vals)):
+      for j in range(i): ctx.assume(vals[i] != vals[j])
+    it = iter(keys)
+    sgroups = [([next(it) for _ in range(n)], v) for n, v in zip(shape, vals)]
+    src = _build(ctx, sgroups)
+    d = MKD(src)
+    groups = []
+    for kt, v in _storage(src): groups = model_set(groups, list(kt), v)
+    U = 50
+  else:
+    n = cfg["pre"]
+    ks = [ctx.int("pk%d" % i, 0, U) + BIG for i in range(n)]; vs = [ctx.int("pv%d" % i, 0, U) - BIG for i in range(n)]
+    for i in range(n):
+      for j in range(i): ctx.assume(ks[i] != ks[j])            # a mapping has distinct keys
+    src = None; sgroups = None
+    d = MKD(list(zip(ks, vs))) if how == "pairs" else MKD(MKD(list(zip(ks, vs))))
+    groups = []
+    for k, v in zip(ks, vs): groups = model_set(groups, [k], v)
+  _check_state(ctx, d, groups, "cast")
+  who = cfg.get("who", "copy")
+  for t in range(cfg["post"]):
+    if who == "copy": groups = step(d, groups, t, "d")
+    else: sgroups = step(src, sgroups, t, "t")
+  _check_state(ctx, d, groups, "cast-then-history")
+  if src is not None: _check_state(ctx, src, sgroups, "source-of-the-cast")
+
+
 # ---------------------------------------------------------------------------------------------------
 # StrategyDict
 # ---------------------------------------------------------------------------------------------------
@@ -322,6 +389,11 @@ def tasks(tier, seed):
       if sum(shape) >= 5 and op == "set3": continue
       T.append(("h_step", {"shape": shape, "op": op}))
   T.append(("h_history", {"steps": 2 if not big else 3, "U": 2}))
+  for how in ("pairs", "mkd-of-pairs"):
+    T.append(("h_cast", {"how": how, "pre": 2 if not big else 3, "post": 1 if not big else 2, "U": 2}))
+  for shape in [[], [1], [2], [1, 1], [2, 1]] + ([[1, 2], [3], [1, 1, 1]] if big else []):
+    for who in ("copy", "source"):
+      T.append(("h_cast", {"how": "mkd", "shape": shape, "post": 1, "U": 50, "who": who}))
   for first in ("set1", "set2", "delitem", "delattr", "setdefault", "strategy"):
     T.append(("h_strategy", {"steps": 2, "first": first}))
     T.append(("h_strategy", {"steps": 3, "first": first, "names": 2, "vals": 2}))
